@@ -276,7 +276,8 @@ class C17(Prop):
 
     # parse_ini / load_ini ---------------------------------------------------------------
     NUMS = ["1", "12", "-3", "+4", "007", "1.5", "-0.25", ".5", "2.", "1.25", "0.0", "-0.0", "100.125", ".", "-", "+", "- 5", "+ 5",
-            "1.2.3", "1e3", "0.0001", "12345678.5", "1.1234567", "-.5", "+1.0", "00.50", "0"]
+            "1.2.3", "1e3", "0.0001", "12345678.5", "1.1234567", "-.5", "+1.0", "00.50", "0",
+            "--5", "+-7", "-+1.5", "++1", "-+", "5-", "5+", "--", "-1-2", "+.5", "-5."]
     INI_AL = ["a", "b", "Z", "1", " ", "=", "+", "#", "/", "'", '"', ".", "-", "é", "\t"]
 
     def _ini_value(self, rng):
